@@ -1,16 +1,593 @@
 package main
 
 import (
+	"fmt"
 	"go/types"
 	"runtime"
+	"strings"
 
 	"golang.org/x/tools/go/ssa"
 )
 
 func runtimeStack(buf []byte) int { return runtime.Stack(buf, false) }
 
-func (e *Exec) threadGo(fr *frame, ins *ssa.Go)                                 { e.unsupported("thread mode not built") }
-func (e *Exec) threadSend(ch Value, v Value)                                    { e.unsupported("thread mode not built") }
-func (e *Exec) threadRecv(ch Value, commaOk bool, t types.Type) Value           { e.unsupported("thread mode not built"); return nil }
-func (e *Exec) threadWake()                                                     {}
-func (e *Exec) threadSelect(fr *frame, ins *ssa.Select) Value                   { e.unsupported("thread mode not built"); return nil }
+// Thread mode: cooperative threads inside one symbolic path. Every `go`
+// statement (and zz.Go) creates a thread with its own call stack; a thread runs
+// until a synchronisation operation (mutex, channel, select, zz.Yield), where the
+// choice "which runnable thread continues" is a decision of the path (so all
+// interleavings at synchronisation granularity are explored, bounded by
+// MaxSwitches preemptions). A state with an unfinished thread and no runnable
+// thread is a deadlock. Data races are NOT detected.
+
+type thread struct {
+	id      int
+	name    string
+	wake    chan struct{}
+	done    bool
+	cond    func() bool // nil = runnable
+	what    string
+	saveCur *frame
+	saveDep int
+	started bool
+}
+
+type threadState struct {
+	threads  []*thread
+	cur      *thread
+	killed   bool
+	abort    *pathEnd
+	switches int
+	mutexes  map[*Cell]*mutexState
+}
+
+type mutexState struct {
+	writer  bool
+	readers int
+}
+
+type killedThread struct{}
+
+func (e *Exec) tstate() *threadState {
+	if e.threads == nil {
+		main := &thread{id: 0, name: "main", wake: make(chan struct{}, 1), started: true}
+		e.threads = &threadState{threads: []*thread{main}, cur: main, mutexes: map[*Cell]*mutexState{}}
+	}
+	return e.threads
+}
+
+// killThreads releases every parked thread goroutine at the end of a path.
+func (e *Exec) killThreads() {
+	ts := e.threads
+	if ts == nil {
+		return
+	}
+	ts.killed = true
+	for _, t := range ts.threads[1:] {
+		if !t.done {
+			select {
+			case t.wake <- struct{}{}:
+			default:
+			}
+		}
+	}
+	e.threads = nil
+}
+
+func (e *Exec) spawn(name string, run func()) {
+	ts := e.tstate()
+	t := &thread{id: len(ts.threads), name: name, wake: make(chan struct{}, 1)}
+	ts.threads = append(ts.threads, t)
+	go func() {
+		<-t.wake
+		if ts.killed {
+			return
+		}
+		t.started = true
+		defer func() {
+			r := recover()
+			t.done = true
+			if r != nil {
+				if _, ok := r.(killedThread); ok {
+					return
+				}
+				pe, ok := r.(pathEnd)
+				if !ok {
+					pe = pathEnd{kind: "unsupported", msg: fmt.Sprintf("engine panic in thread: %v", r)}
+					e.Unsupported[pe.msg]++
+				}
+				ts.abort = &pe
+				// hand control back to the main thread, which re-raises
+				ts.cur = ts.threads[0]
+				ts.threads[0].wake <- struct{}{}
+				return
+			}
+			// normal end: pass the baton
+			e.passBaton()
+		}()
+		e.cur, e.depth = nil, 0
+		run()
+	}()
+}
+
+// runnable lists the threads that can continue.
+func (ts *threadState) runnable() []*thread {
+	var out []*thread
+	for _, t := range ts.threads {
+		if t.done {
+			continue
+		}
+		if t.cond == nil || t.cond() {
+			out = append(out, t)
+		}
+	}
+	return out
+}
+
+func (e *Exec) describeBlocked() string {
+	var parts []string
+	for _, t := range e.threads.threads {
+		if !t.done {
+			parts = append(parts, t.name+":"+t.what)
+		}
+	}
+	return strings.Join(parts, ",")
+}
+
+// pick chooses the next thread among the runnable ones (a path decision).
+func (e *Exec) pick(run []*thread, mayStay bool) *thread {
+	ts := e.threads
+	if len(run) == 1 {
+		return run[0]
+	}
+	if mayStay && e.cfg.MaxSwitches > 0 && ts.switches >= e.cfg.MaxSwitches {
+		for _, t := range run {
+			if t == ts.cur {
+				return t
+			}
+		}
+	}
+	vals := make([]uint64, len(run))
+	cons := make([]*Term, len(run))
+	for i, t := range run {
+		vals[i] = uint64(t.id)
+		cons[i] = e.ts.True
+	}
+	v := e.choose("sched", vals, cons)
+	for _, t := range run {
+		if uint64(t.id) == v {
+			return t
+		}
+	}
+	panic("internal: scheduled thread not runnable")
+}
+
+// switchTo parks the current thread and runs next.
+func (e *Exec) switchTo(next *thread) {
+	ts := e.threads
+	cur := ts.cur
+	if next == cur {
+		return
+	}
+	ts.switches++
+	cur.saveCur, cur.saveDep = e.cur, e.depth
+	ts.cur = next
+	next.wake <- struct{}{}
+	<-cur.wake
+	if ts.killed {
+		panic(killedThread{})
+	}
+	if ts.abort != nil && cur.id == 0 {
+		pe := *ts.abort
+		panic(pe)
+	}
+	e.cur, e.depth = cur.saveCur, cur.saveDep
+}
+
+// passBaton is called by a finished thread.
+func (e *Exec) passBaton() {
+	ts := e.threads
+	if ts == nil || ts.killed {
+		return
+	}
+	run := ts.runnable()
+	if len(run) == 0 {
+		// nobody can run: the main thread is blocked forever (or done, which cannot be: it would have ended the path)
+		pe := pathEnd{kind: "deadlock", msg: e.describeBlocked()}
+		e.deadlockViolation()
+		ts.abort = &pe
+		ts.cur = ts.threads[0]
+		ts.threads[0].wake <- struct{}{}
+		return
+	}
+	next := e.pick(run, false)
+	ts.cur = next
+	next.wake <- struct{}{}
+}
+
+func (e *Exec) deadlockViolation() {
+	label := "deadlock:" + e.describeBlocked()
+	if l, ok := e.envState["deadlock-label"].(*StrV); ok {
+		label = l.S
+	}
+	e.check(e.ts.False, label)
+}
+
+// syncPoint: the current thread is about to perform a synchronisation operation;
+// any runnable thread may run first.
+func (e *Exec) syncPoint(what string) {
+	ts := e.tstate()
+	ts.cur.what = what
+	run := ts.runnable()
+	if len(run) <= 1 {
+		return
+	}
+	next := e.pick(run, true)
+	e.switchTo(next)
+}
+
+// waitUntil blocks the current thread until cond holds.
+func (e *Exec) waitUntil(cond func() bool, what string) {
+	ts := e.tstate()
+	for !cond() {
+		cur := ts.cur
+		cur.cond, cur.what = cond, what
+		run := ts.runnable()
+		if len(run) == 0 {
+			e.deadlockViolation()
+			e.abort("deadlock", e.describeBlocked())
+		}
+		next := e.pick(run, false)
+		e.switchTo(next)
+		cur.cond = nil
+	}
+	ts.cur.cond = nil
+}
+
+// ----- go statements -----
+
+func (e *Exec) threadGo(fr *frame, ins *ssa.Go) {
+	fnv, args := e.prepareCall(fr, &ins.Call)
+	cc := &ins.Call
+	name := fmt.Sprintf("go@%s", e.posStr(ins.Pos()))
+	e.spawn(name, func() {
+		e.invokePrepared(nil, cc, fnv, args)
+	})
+}
+
+// ----- channels -----
+
+type sendItem struct {
+	v     Value
+	taken bool
+}
+
+type chanExtra struct {
+	sendq       []*sendItem
+	handoff     []Value
+	recvWaiters int
+}
+
+func (e *Exec) cx(c *ChanObj) *chanExtra {
+	key := fmt.Sprintf("chan:%d", c.id)
+	if x, ok := e.envState[key].(*chanExtraBox); ok {
+		return x.x
+	}
+	b := &chanExtraBox{x: &chanExtra{}}
+	e.envState[key] = b
+	return b.x
+}
+
+type chanExtraBox struct{ x *chanExtra }
+
+func (e *Exec) threadSend(ch Value, v Value) {
+	c, ok := ch.(*ChanObj)
+	if !ok {
+		if _, isO := ch.(*OpaqueV); isO {
+			return
+		}
+		e.unsupported("send on %T", ch)
+	}
+	e.syncPoint("send")
+	if c == nil {
+		e.waitUntil(func() bool { return false }, "send on nil channel")
+	}
+	if c.Closed {
+		e.goPanic("send on closed channel")
+	}
+	x := e.cx(c)
+	if len(c.Buf) < c.Cap {
+		c.Buf = append(c.Buf, v)
+		return
+	}
+	if x.recvWaiters > len(x.handoff) {
+		x.handoff = append(x.handoff, v)
+		return
+	}
+	item := &sendItem{v: v}
+	x.sendq = append(x.sendq, item)
+	e.waitUntil(func() bool { return item.taken || c.Closed }, "chan send")
+	if !item.taken {
+		e.goPanic("send on closed channel")
+	}
+}
+
+func (e *Exec) recvReady(c *ChanObj) bool {
+	if c == nil {
+		return false
+	}
+	x := e.cx(c)
+	return len(x.handoff) > 0 || len(c.Buf) > 0 || len(x.sendq) > 0 || c.Closed
+}
+
+// takeRecv performs a ready receive.
+func (e *Exec) takeRecv(c *ChanObj) (Value, bool) {
+	x := e.cx(c)
+	if len(x.handoff) > 0 {
+		v := x.handoff[0]
+		x.handoff = x.handoff[1:]
+		return v, true
+	}
+	if len(c.Buf) > 0 {
+		v := c.Buf[0]
+		c.Buf = c.Buf[1:]
+		if len(x.sendq) > 0 {
+			it := x.sendq[0]
+			x.sendq = x.sendq[1:]
+			c.Buf = append(c.Buf, it.v)
+			it.taken = true
+		}
+		return v, true
+	}
+	if len(x.sendq) > 0 {
+		it := x.sendq[0]
+		x.sendq = x.sendq[1:]
+		it.taken = true
+		return it.v, true
+	}
+	return nil, false // closed
+}
+
+func (e *Exec) threadRecv(ch Value, commaOk bool, t types.Type) Value {
+	c, ok := ch.(*ChanObj)
+	if !ok {
+		if _, isO := ch.(*OpaqueV); isO {
+			e.waitUntil(func() bool { return false }, "receive on opaque channel")
+		}
+		e.unsupported("recv on %T", ch)
+	}
+	et := t
+	if commaOk {
+		et = t.(*types.Tuple).At(0).Type()
+	}
+	e.syncPoint("recv")
+	if c == nil {
+		e.waitUntil(func() bool { return false }, "receive on nil channel")
+	}
+	if !e.recvReady(c) {
+		x := e.cx(c)
+		x.recvWaiters++
+		e.waitUntil(func() bool { return e.recvReady(c) }, "chan receive")
+		x.recvWaiters--
+	}
+	v, got := e.takeRecv(c)
+	if !got {
+		v = e.zero(et)
+	}
+	if commaOk {
+		return TupleV{v, e.ts.Bool(got)}
+	}
+	return v
+}
+
+func (e *Exec) threadWake() {}
+
+func (e *Exec) threadSelect(fr *frame, ins *ssa.Select) Value {
+	tt := ins.Type().(*types.Tuple)
+	mk := func(idx int, recvOk bool, recvIdx int, recvVal Value) Value {
+		tv := make(TupleV, tt.Len())
+		tv[0] = e.ts.Const(64, uint64(int64(idx)))
+		tv[1] = e.ts.Bool(recvOk)
+		k := 2
+		for i, st := range ins.States {
+			if st.Dir == types.RecvOnly {
+				if i == recvIdx && recvVal != nil {
+					tv[k] = recvVal
+				} else {
+					tv[k] = e.zero(tt.At(k).Type())
+				}
+				k++
+			}
+		}
+		return tv
+	}
+	chans := make([]*ChanObj, len(ins.States))
+	for i, st := range ins.States {
+		c, _ := e.get(fr, st.Chan).(*ChanObj)
+		chans[i] = c
+	}
+	e.syncPoint("select")
+	ready := func() []int {
+		var r []int
+		for i, st := range ins.States {
+			c := chans[i]
+			if c == nil {
+				continue
+			}
+			if st.Dir == types.RecvOnly {
+				if e.recvReady(c) {
+					r = append(r, i)
+				}
+			} else {
+				x := e.cx(c)
+				if c.Closed || len(c.Buf) < c.Cap || x.recvWaiters > len(x.handoff) {
+					r = append(r, i)
+				}
+			}
+		}
+		return r
+	}
+	for {
+		r := ready()
+		if len(r) > 0 {
+			i := r[0]
+			if len(r) > 1 {
+				vals := make([]uint64, len(r))
+				cons := make([]*Term, len(r))
+				for k := range r {
+					vals[k] = uint64(r[k])
+					cons[k] = e.ts.True
+				}
+				i = int(e.choose("select", vals, cons))
+			}
+			st := ins.States[i]
+			c := chans[i]
+			if st.Dir == types.RecvOnly {
+				v, got := e.takeRecv(c)
+				return mk(i, got, i, v)
+			}
+			if c.Closed {
+				e.goPanic("send on closed channel")
+			}
+			x := e.cx(c)
+			v := e.get(fr, st.Send)
+			if len(c.Buf) < c.Cap {
+				c.Buf = append(c.Buf, v)
+			} else {
+				x.handoff = append(x.handoff, v)
+			}
+			return mk(i, false, -1, nil)
+		}
+		if !ins.Blocking {
+			return mk(-1, false, -1, nil)
+		}
+		for i, st := range ins.States {
+			if st.Dir == types.RecvOnly && chans[i] != nil {
+				e.cx(chans[i]).recvWaiters++
+			}
+		}
+		e.waitUntil(func() bool { return len(ready()) > 0 }, "select")
+		for i, st := range ins.States {
+			if st.Dir == types.RecvOnly && chans[i] != nil {
+				e.cx(chans[i]).recvWaiters--
+			}
+		}
+	}
+}
+
+// ----- mutexes -----
+
+func (e *Exec) mutex(v Value) *mutexState {
+	c, ok := v.(*Cell)
+	if !ok || c == nil {
+		e.unsupported("mutex receiver %T", v)
+	}
+	ts := e.tstate()
+	m := ts.mutexes[c]
+	if m == nil {
+		m = &mutexState{}
+		ts.mutexes[c] = m
+	}
+	return m
+}
+
+func thLock(e *Exec, fn *ssa.Function, a []Value) Value {
+	m := e.mutex(a[0])
+	e.syncPoint("lock")
+	e.waitUntil(func() bool { return !m.writer && m.readers == 0 }, "mutex lock")
+	m.writer = true
+	return nil
+}
+
+func thUnlock(e *Exec, fn *ssa.Function, a []Value) Value {
+	m := e.mutex(a[0])
+	if !m.writer {
+		e.goPanic("unlock of unlocked mutex")
+	}
+	m.writer = false
+	return nil
+}
+
+func thRLock(e *Exec, fn *ssa.Function, a []Value) Value {
+	m := e.mutex(a[0])
+	e.syncPoint("rlock")
+	e.waitUntil(func() bool { return !m.writer }, "rwmutex rlock")
+	m.readers++
+	return nil
+}
+
+func thRUnlock(e *Exec, fn *ssa.Function, a []Value) Value {
+	m := e.mutex(a[0])
+	if m.readers <= 0 {
+		e.goPanic("runlock of unlocked rwmutex")
+	}
+	m.readers--
+	return nil
+}
+
+var threadIntrinsics = map[string]func(e *Exec, fn *ssa.Function, args []Value) Value{
+	"(*sync.Mutex).Lock":      thLock,
+	"(*sync.Mutex).Unlock":    thUnlock,
+	"(*sync.RWMutex).Lock":    thLock,
+	"(*sync.RWMutex).Unlock":  thUnlock,
+	"(*sync.RWMutex).RLock":   thRLock,
+	"(*sync.RWMutex).RUnlock": thRUnlock,
+}
+
+// ----- harness API for threads -----
+
+func inZZGo(e *Exec, fn *ssa.Function, a []Value) Value {
+	name := e.concStr(a[0], "thread name")
+	f := a[1]
+	if !e.cfg.ThreadMode {
+		e.unsupported("zz.Go outside thread mode")
+	}
+	e.spawn(name, func() { e.callValue(f, nil) })
+	return nil
+}
+
+// WaitThreads(label): the main thread waits until all other threads are done; a deadlock is reported under label.
+func inZZWaitThreads(e *Exec, fn *ssa.Function, a []Value) Value {
+	if !e.cfg.ThreadMode {
+		return nil
+	}
+	ts := e.tstate()
+	e.envState["deadlock-label"] = a[0]
+	e.waitUntil(func() bool {
+		for _, t := range ts.threads[1:] {
+			if !t.done {
+				return false
+			}
+		}
+		return true
+	}, "wait for threads")
+	delete(e.envState, "deadlock-label")
+	return nil
+}
+
+// Settle(): the main thread waits until no other thread can run (all blocked or done).
+func inZZSettle(e *Exec, fn *ssa.Function, a []Value) Value {
+	if !e.cfg.ThreadMode {
+		return nil
+	}
+	ts := e.tstate()
+	for {
+		var others []*thread
+		for _, t := range ts.threads[1:] {
+			if !t.done && (t.cond == nil || t.cond()) {
+				others = append(others, t)
+			}
+		}
+		if len(others) == 0 {
+			return nil
+		}
+		next := e.pick(others, false)
+		e.switchTo(next)
+	}
+}
+
+func inZZYield(e *Exec, fn *ssa.Function, a []Value) Value {
+	if e.cfg.ThreadMode {
+		e.syncPoint("yield")
+	}
+	return nil
+}
